@@ -69,7 +69,7 @@ func Harness_C15_server() {
 	model := map[string]string{}
 	n := zzsym.Param("hist", 2)
 	for step := 0; step < n; step++ {
-		kind := zzsym.Choice("kind", 7)
+		kind := zzsym.Choice("kind", 10)
 		ti := zzsym.Choice("text", zzsym.Param("texts", len(c15Texts)))
 		text, other := c15Texts[ti], c15Texts[c15Other[ti]]
 		q, _ := json.Marshal(text)
@@ -101,6 +101,15 @@ func Harness_C15_server() {
 			} else {
 				wantErr = "PersistedQueryNotFound"
 			}
+		case 7: // malformed extension: no hash at all (hash-only shape)
+			post(`{"extensions":{"persistedQuery":{"version":1}}}`)
+			wantErr = "PersistedQueryNotFound"
+		case 8: // malformed extension: no version
+			post(`{"extensions":{"persistedQuery":{"sha256Hash":"` + c15Sum(text) + `"}}}`)
+			wantErr = "unsupported APQ version"
+		case 9: // text with an extension that carries no hash: not a registration
+			post(`{"query":` + string(q) + `,"extensions":{"persistedQuery":{"version":1}}}`)
+			wantErr = "provided APQ hash does not match query"
 		case 5: // undecodable after query and extensions (a registration attempt) were read
 			post(`{"query":` + string(q) + `,"extensions":` + c15Ext(c15Sum(text)) + `,"variables":[]}`)
 			wantStatus = 400
